@@ -57,6 +57,8 @@ var repaired = map[string]bool{
 	"panic:dsl.Extend:nil-deref":                              true,
 	"panic:dsl.useDSL.func2:nil-deref":                        true,
 	"panic:dsl.Field.func2:nil-deref":                         true,
+	"fatal:stack-overflow:expr.hasTag":                        true,
+	"fatal:stack-overflow:expr.walkAttribute":                 true,
 }
 
 func streamOf(sig string) (string, string) {
